@@ -249,7 +249,7 @@ def run_task(task):
         return out
     hist = 2
     r = batch.run_batched(task["cases"], lambda cs: _judge(cs, hist), label=lambda c: "ok:" + "+".join(c["F"]),
-                          key=lambda c: repr((c["st"], c["F"])), sig=_sig)
+                          key=lambda c: repr((c["st"], c["F"])), sig=_sig, strict_batch=True)
     _, ctx = _judge(task["cases"], hist)
     r["states"] = list(ctx["states"])
     r["transitions"] = hist
